@@ -61,7 +61,37 @@ var vc11Suffixes = []vc11Suffix{
 }
 
 // vc11Labels is the alphabet of the labels above the registrable one.
-var vc11Labels = []string{"a", "b", "c", "www"}
+//
+// Besides plain letter-digit-hyphen labels it has labels that are legal in a
+// DNS name but not in a strict RFC 952/1123 host name (underscores, a leading
+// or trailing hyphen), a digits-only label and a label of 63 octets.  The
+// unchanged Storage.Reset takes every line that is not blank or a comment, so
+// all of them are listed names like any other.
+var vc11Labels = []string{
+	"a", "b", "c", "www", "a", "b", "c", "www",
+	"_s", "a_b", "x-", "-y", "_a-1", "123", vc11Label63,
+}
+
+// vc11Label63 is a label of the maximum length.
+var vc11Label63 = strings.Repeat("l", 63)
+
+// vc11StrictHostname reports whether every label of name is a strict host-name
+// label: letters and digits, hyphens only inside.
+func vc11StrictHostname(name string) bool {
+	for _, l := range strings.Split(name, ".") {
+		if l == "" || l[0] == '-' || l[len(l)-1] == '-' {
+			return false
+		}
+
+		for i := 0; i < len(l); i++ {
+			if c := l[i]; !(c >= 'a' && c <= 'z' || c >= '0' && c <= '9' || c == '-') {
+				return false
+			}
+		}
+	}
+
+	return true
+}
 
 // vc11BaseLabel is the registrable label that has a twin under every suffix.
 const vc11BaseLabel = "bad"
@@ -313,9 +343,23 @@ func vc11GenName(t *rapid.T, label string) vc11Name {
 	labels := make([]string, extra)
 	for i := range labels {
 		if i == extra-1 {
-			labels[i] = rapid.SampledFrom([]string{vc11BaseLabel, vc11BaseLabel, vc11Twins()[sfx.name], "a"}).Draw(t, label+".reg")
+			labels[i] = rapid.SampledFrom([]string{
+				vc11BaseLabel, vc11BaseLabel, vc11BaseLabel, vc11Twins()[sfx.name], vc11Twins()[sfx.name], "a", "a_b", "x-",
+			}).Draw(t, label+".reg")
 		} else {
 			labels[i] = rapid.SampledFrom(vc11Labels).Draw(t, label+".l")
+		}
+	}
+
+	// At most one label of the maximum length, to stay within 253 octets.
+	long := false
+	for i, l := range labels {
+		if l == vc11Label63 {
+			if long {
+				labels[i] = "a"
+			}
+
+			long = true
 		}
 	}
 
